@@ -190,6 +190,7 @@ def run(run):
             run.guard('substitution loops', substitution_loops, run, F, E, F.label())
             run.guard('all loops', all_loops, run, F, E)
             run.guard('requested writers', c02.requested_writers, run, F, E)
+            run.guard('leftover request survives', c02.leftover_request_survives, run, F, E, 'C04.d')
             # "chosen among the requests that passed their guards": a veto always takes, whoever casts it (C03.e evaluation)
             from rules import c03 as _c03
             run.guard('veto takes', _c03.veto_takes, run, F, 'C04.f')
